@@ -86,11 +86,18 @@ def run(check, tier, seed, scratch):
             if t % nshards == shard:
                 ps = case['ins'][0]
                 yield partial_event(u, 'modelcex/%d' % t, absig.make_func(ps, name='f1'), ps, case['fl']['n'], list(case['fl']['names']), 'plain')
-    run_trace_leg(check, scratch, 'partial', alggen.chain(partial_events(u, U, 2, sample=0.6 if quick else 1.0, seed=seed), cexgen), WANT)
+    # deeper signatures (4 named parameters: the positional buckets of _mask only interact with >= 2 positional-only AND >= 2 regular parameters)
+    U4 = tlc.export_universe(scratch, 'abcd', ['args'], ['kwargs'], 4)
+    rnd = random.Random(seed + 4)
+    U4s = rnd.sample([ps for ps in U4 if sum(1 for p in ps if p['k'] in ('po', 'pok')) >= 3], 160 if quick else 4000)
+    u4 = Universe(U4s)
+    run_trace_leg(check, scratch, 'partial', alggen.chain(partial_events(u, U, 2, sample=0.6 if quick else 1.0, seed=seed),
+                                                          partial_events(u4, U4s, 1, sample=0.5, seed=seed + 1), cexgen), WANT)
     check.cov['exhaustive'] = not quick
     check.cov['rule'] = ('every function of the %d-signature universe x bound positional count 0..len+1 x bound keyword subsets (<=2, incl. a foreign name) x '
                          '{signatures.signature, sigtools.signature, nested partial}%s; each partial object really called on the complete call set; '
-                         'distinct by (function, binding, route)' % (len(U), ' (seeded 60% sample)' if quick else ''))
+                         'plus %d seeded signatures with >= 3 positional parameters out of the %d-signature universe of <= 4 named parameters (bound keyword subsets <= 1); '
+                         'distinct by (function, binding, route)' % (len(U), ' (seeded 60% sample)' if quick else '', len(U4s), len(U4)))
     check.assumptions += ['bindings whose keyword names a positional-only parameter are excluded (version-dependent)']
 
 
